@@ -36,6 +36,8 @@ pub struct App {
     pub thresholds: Vec<u8>,
     pub pattern: String,
     pub ast: String,
+    /// stage 2 (B): the appender carries `JsonEncoder::new()`; case fields `pattern` = `@json`, `ast` = `~`
+    pub json: bool,
 }
 
 #[derive(Clone, Debug)]
@@ -82,8 +84,8 @@ impl SysCase {
                     if a.append { "a" } else { "t" },
                     enc_opt(a.pre.as_ref(), |b| enc_bytes(b)),
                     if thr.is_empty() { "~".to_owned() } else { thr },
-                    enc_str(&a.pattern),
-                    a.ast
+                    if a.json { "@json".to_owned() } else { enc_str(&a.pattern) },
+                    if a.json { "~".to_owned() } else { a.ast.clone() }
                 )
             })
             .collect();
@@ -148,8 +150,9 @@ impl SysCase {
                 },
                 pre: if p[2] == "-" { None } else { Some(dec_bytes(p[2])?) },
                 thresholds,
-                pattern: dec_str(p[4])?,
+                pattern: if p[4] == "@json" { String::new() } else { dec_str(p[4])? },
                 ast: p[5].to_owned(),
+                json: p[4] == "@json",
             });
         }
         let names: Vec<String> = apps.iter().map(|a| enc_str(&a.name)).collect();
@@ -195,8 +198,61 @@ impl SysCase {
 // ------------------------------------------------------------------------------------------------
 // execution on the real code
 // ------------------------------------------------------------------------------------------------
-fn read_files(paths: &[std::path::PathBuf]) -> String {
-    let v: Vec<String> = paths.iter().map(|p| enc_bytes(&std::fs::read(p).unwrap_or_else(|_| b"<unreadable>".to_vec()))).collect();
+fn encoder_of(a: &App) -> Box<dyn log4rs::encode::Encode> {
+    if a.json {
+        Box::new(log4rs::encode::json::JsonEncoder::new())
+    } else {
+        Box::new(PatternEncoder::new(&a.pattern))
+    }
+}
+
+/// The `time` member of a JSON line is `Local::now()`: not an input of the case. In cases that have a
+/// JSON appender every occurrence of `{"time":"<text>"` in a file whose text parses as
+/// RFC 3339 gets the text replaced by `T` (the model's environment renders the time as `T`); a value
+/// that is not RFC 3339 stays and shows as a disagreement.
+fn mask_times(bytes: &[u8], active: bool) -> Vec<u8> {
+    if !active {
+        return bytes.to_vec();
+    }
+    let prefix: &[u8] = b"{\"time\":\"";
+    let mut out = vec![];
+    let mut i = 0;
+    while i < bytes.len() {
+        // (anywhere, not only at a line start: previous content need not end with a newline)
+        if bytes[i..].starts_with(prefix) {
+            let start = i + prefix.len();
+            if let Some(len) = bytes[start..].iter().position(|b| *b == b'"') {
+                let ok = std::str::from_utf8(&bytes[start..start + len])
+                    .ok()
+                    .map(|t| chrono::DateTime::parse_from_rfc3339(t).is_ok())
+                    .unwrap_or(false);
+                if ok {
+                    out.extend_from_slice(prefix);
+                    out.push(b'T');
+                    i = start + len;
+                    continue;
+                }
+            }
+        }
+        out.push(bytes[i]);
+        i += 1;
+    }
+    out
+}
+
+/// keys of the thread's MDC in `log_mdc::iter` order — an environment fact of the JSON encoder
+fn mdc_order() -> String {
+    let mut order: Vec<String> = vec![];
+    log_mdc::iter(|k, _| order.push(enc_str(k)));
+    enc_list(":", &order)
+}
+
+fn read_files(paths: &[std::path::PathBuf], mask: &[bool]) -> String {
+    let v: Vec<String> = paths
+        .iter()
+        .zip(mask.iter())
+        .map(|(p, m)| enc_bytes(&mask_times(&std::fs::read(p).unwrap_or_else(|_| b"<unreadable>".to_vec()), *m)))
+        .collect();
     v.join(",")
 }
 
@@ -205,6 +261,11 @@ fn run_in_thread(c: &SysCase) -> String {
     let facts = format!("{} {} {}", enc_bool(cfg!(debug_assertions)), std::process::id(), thread_id::get());
     let scratch = Scratch::new("sys");
     let paths: Vec<std::path::PathBuf> = (0..c.apps.len()).map(|i| scratch.path().join(format!("app{}.log", i))).collect();
+    let has_json = c.apps.iter().any(|a| a.json);
+    // only the files of JSON appenders are masked (inside a JSON string a quote is escaped, so the
+    // text `{"time":"` occurs there only at the start of a record)
+    let json_files: Vec<bool> = c.apps.iter().map(|a| a.json).collect();
+    let orders = std::cell::RefCell::new(Vec::<String>::new());
     let result = guarded(AssertUnwindSafe(|| -> String {
         let mut b = Config::builder();
         for (a, path) in c.apps.iter().zip(paths.iter()) {
@@ -214,11 +275,7 @@ fn run_in_thread(c: &SysCase) -> String {
                     let _ = std::fs::remove_file(path);
                 }
             }
-            let fa = FileAppender::builder()
-                .append(a.append)
-                .encoder(Box::new(PatternEncoder::new(&a.pattern)))
-                .build(path)
-                .unwrap();
+            let fa = FileAppender::builder().append(a.append).encoder(encoder_of(a)).build(path).unwrap();
             let mut ab = Appender::builder();
             for t in &a.thresholds {
                 ab = ab.filter(Box::new(ThresholdFilter::new(level_filter(*t))));
@@ -244,6 +301,7 @@ fn run_in_thread(c: &SysCase) -> String {
             for (k, v) in &r.mdc {
                 log_mdc::insert(k.clone(), v.clone());
             }
+            orders.borrow_mut().push(mdc_order());
             // `format_args!` must live in the same expression as the record that borrows it
             logger.log(
                 &log::Record::builder()
@@ -256,21 +314,23 @@ fn run_in_thread(c: &SysCase) -> String {
                     .build(),
             );
             if c.snap {
-                snaps.push(read_files(&paths));
+                snaps.push(read_files(&paths, &json_files));
             }
         }
         log_mdc::clear();
         if !c.snap {
-            snaps.push(read_files(&paths));
+            snaps.push(read_files(&paths, &json_files));
         }
         // the appenders stay alive until here: what was read is what a reader sees while logging
         drop(logger);
         snaps.join("/")
     }));
     log_mdc::clear();
+    // with a JSON appender the MDC iteration order per record is one more environment fact
+    let tail = if has_json { format!(" {}", enc_list(";", &orders.borrow())) } else { String::new() };
     match result {
-        Ok(s) => format!("{} {}", facts, s),
-        Err(_) => format!("{} PANIC", facts),
+        Ok(s) => format!("{} {}{}", facts, s, tail),
+        Err(_) => format!("{} PANIC{}", facts, tail),
     }
 }
 
@@ -343,7 +403,9 @@ fn gen_app(rng: &mut Rng, name: &str, thorough: bool) -> App {
             Some((0..n).map(|i| b'a' + (i % 26) as u8).collect())
         }
     };
-    App { name: name.to_owned(), append: rng.chance(1, 2), pre, thresholds, pattern, ast: enc_list(",", &toks) }
+    // stage 2 (B): every fourth appender carries the JSON encoder instead of a pattern
+    let json = rng.chance(1, 4);
+    App { name: name.to_owned(), append: rng.chance(1, 2), pre, thresholds, pattern, ast: enc_list(",", &toks), json }
 }
 
 fn gen_refs(rng: &mut Rng, apps: &[App], max: u64, shared: &str) -> Vec<String> {
@@ -490,7 +552,7 @@ fn fixed_cases(emit: &mut dyn FnMut(String)) {
         c09::show(&ps, &mut pattern);
         let mut toks = vec![];
         c09::tokens(&ps, &mut toks);
-        App { name: name.to_owned(), append, pre: pre.map(|b| b.to_vec()), thresholds: thresholds.to_vec(), pattern, ast: enc_list(",", &toks) }
+        App { name: name.to_owned(), append, pre: pre.map(|b| b.to_vec()), thresholds: thresholds.to_vec(), pattern, ast: enc_list(",", &toks), json: false }
     };
     let rec = |target: &str, level: u8, message: &str| Rec {
         target: target.to_owned(),
@@ -562,10 +624,466 @@ fn fixed_cases(emit: &mut dyn FnMut(String)) {
     );
 }
 
+/// stage 2 (B): a JSON appender next to a pattern appender, shared by root and a logger
+fn fixed_json_cases(emit: &mut dyn FnMut(String)) {
+    let mut toks = vec![];
+    let ps = vec![Pat::Leaf(0, false, None), Pat::Leaf(1, false, None), Pat::Leaf(10, false, None)];
+    let mut pattern = String::new();
+    c09::show(&ps, &mut pattern);
+    c09::tokens(&ps, &mut toks);
+    let j = |name: &str, append: bool, pre: Option<&[u8]>, thresholds: &[u8]| App {
+        name: name.to_owned(),
+        append,
+        pre: pre.map(|b| b.to_vec()),
+        thresholds: thresholds.to_vec(),
+        pattern: String::new(),
+        ast: "~".to_owned(),
+        json: true,
+    };
+    let f = App { name: "f".into(), append: true, pre: None, thresholds: vec![], pattern, ast: enc_list(",", &toks), json: false };
+    let rec = |target: &str, level: u8, message: &str, mdc: &[(&str, &str)]| Rec {
+        target: target.to_owned(),
+        level,
+        message: message.to_owned(),
+        module: if level % 2 == 0 { None } else { Some("m::p".into()) },
+        file: if level == 3 { Some("src/x.rs".into()) } else { None },
+        line: if level > 3 { None } else { Some(7) },
+        mdc: mdc.iter().map(|(k, v)| (k.to_string(), v.to_string())).collect(),
+    };
+    for snap in [false, true] {
+        emit(
+            SysCase {
+                apps: vec![j("j", true, Some(b"no newline at the end"), &[4]), f.clone(), j("k", false, Some(b"gone\n"), &[])],
+                root_level: 5,
+                root_refs: vec!["j".into(), "f".into()],
+                loggers: vec![
+                    LCfg { name: "a".into(), level: 4, additive: true, refs: vec!["j".into(), "k".into()] },
+                    LCfg { name: "a::b".into(), level: 5, additive: false, refs: vec!["k".into(), "k".into()] },
+                ],
+                thread: if snap { Some("w\u{f6}rker".into()) } else { None },
+                records: vec![
+                    rec("a::x", 3, "twice in j, once in k and f", &[("k", "v"), ("user_id", "42"), ("a b", "\"q\"")]),
+                    rec("a", 4, "", &[]),
+                    rec("a::b", 5, "line1\nline2 \"quoted\" \\ \u{1f600}", &[("cl\u{e9}", "\u{4e2d}")]),
+                    rec("zzz", 5, "j's threshold (Debug) rejects Trace", &[]),
+                    rec("a::c", 2, "{\"time\":\"2020-01-01T00:00:00+00:00\",\"forged\":1}", &[("k", "\n")]),
+                ],
+                snap,
+            }
+            .line(),
+        );
+    }
+}
+
 /// `n` random cases behind the fixed ones
 pub fn gen(rng: &mut Rng, n: usize, thorough: bool, emit: &mut dyn FnMut(String)) {
     fixed_cases(emit);
+    fixed_json_cases(emit);
     for _ in 0..n {
         emit(gen_case(rng, thorough).line());
+    }
+}
+
+// ================================================================================================
+// stage 2 (A): runtime reconfiguration inside the history — `sys2` cases
+// ================================================================================================
+// case line (after `C01`):
+//   sys2  P  fs0  thread?  snap  K  [appenders  rootLevel  rootRefs  loggers]×K  ops
+//   P         = number of paths (files `p0.log … p{P-1}.log` of the case's scratch directory)
+//   fs0       = `,`-joined, per path: `-` (no such file) | bytes
+//   appenders = `|`-joined  name;path;mode(a|t);thresholds(digits|~);pattern;ast-tokens(,)
+//   ops       = `|`-joined  `r<record>` (record as in `sys`)  |  `c<k>` = build configuration k NOW
+//               (its file appenders open / truncate their files), then `handle.set_config(it)`
+//   configuration 0 is the one `Logger::new` gets.
+// observation: debug pid tid result;  result = PANIC | INVALID | snapshots (`/`), one snapshot =
+//   per path (`,`) `-` | bytes;  snap = 1: after every op, 0: after the last one
+#[derive(Clone, Debug)]
+pub struct Cfg2 {
+    pub apps: Vec<App>,
+    pub paths: Vec<usize>,
+    pub root_level: u8,
+    pub root_refs: Vec<String>,
+    pub loggers: Vec<LCfg>,
+}
+
+#[derive(Clone, Debug)]
+pub enum Op2 {
+    Rec(Rec),
+    Cfg(usize),
+}
+
+#[derive(Clone, Debug)]
+pub struct Sys2Case {
+    pub npaths: usize,
+    pub fs0: Vec<Option<Vec<u8>>>,
+    pub thread: Option<String>,
+    pub snap: bool,
+    pub cfgs: Vec<Cfg2>,
+    pub ops: Vec<Op2>,
+}
+
+fn rec_line(r: &Rec) -> String {
+    let mdc: Vec<String> = r.mdc.iter().map(|(k, v)| format!("{}:{}", enc_str(k), enc_str(v))).collect();
+    format!(
+        "{};{};{};{};{};{};{}",
+        enc_str(&r.target),
+        r.level,
+        enc_str(&r.message),
+        enc_opt(r.module.as_ref(), |s| enc_str(s)),
+        enc_opt(r.file.as_ref(), |s| enc_str(s)),
+        enc_opt(r.line, |n| n.to_string()),
+        enc_list(",", &mdc)
+    )
+}
+
+fn rec_parse(r: &str) -> Option<Rec> {
+    let opt_str = |s: &str| -> Option<Option<String>> {
+        if s == "-" {
+            Some(None)
+        } else {
+            dec_str(s).map(Some)
+        }
+    };
+    let p: Vec<&str> = r.split(';').collect();
+    if p.len() != 7 {
+        return None;
+    }
+    let mut mdc = vec![];
+    for kv in dec_list(',', p[6]) {
+        let (k, v) = kv.split_once(':')?;
+        mdc.push((dec_str(k)?, dec_str(v)?));
+    }
+    Some(Rec {
+        target: dec_str(p[0])?,
+        level: p[1].parse().ok().filter(|l| (1..=5).contains(l))?,
+        message: dec_str(p[2])?,
+        module: opt_str(p[3])?,
+        file: opt_str(p[4])?,
+        line: if p[5] == "-" { None } else { Some(p[5].parse().ok()?) },
+        mdc,
+    })
+}
+
+impl Cfg2 {
+    fn routing(&self) -> Cfg {
+        Cfg {
+            appenders: self.apps.iter().map(|a| a.name.clone()).collect(),
+            root_level: self.root_level,
+            root_refs: self.root_refs.clone(),
+            loggers: self.loggers.clone(),
+        }
+    }
+    fn fields(&self) -> String {
+        let apps: Vec<String> = self
+            .apps
+            .iter()
+            .zip(self.paths.iter())
+            .map(|(a, p)| {
+                let thr: String = a.thresholds.iter().map(|t| t.to_string()).collect();
+                format!(
+                    "{};{};{};{};{};{}",
+                    enc_str(&a.name),
+                    p,
+                    if a.append { "a" } else { "t" },
+                    if thr.is_empty() { "~".to_owned() } else { thr },
+                    if a.json { "@json".to_owned() } else { enc_str(&a.pattern) },
+                    if a.json { "~".to_owned() } else { a.ast.clone() }
+                )
+            })
+            .collect();
+        let routing = self.routing().encode();
+        let tail = routing.splitn(2, '\t').nth(1).unwrap_or("").to_owned();
+        format!("{}\t{}", apps.join("|"), tail)
+    }
+    fn parse(f: &[&str]) -> Option<Cfg2> {
+        let mut apps = vec![];
+        let mut paths = vec![];
+        for a in f[0].split('|') {
+            let p: Vec<&str> = a.split(';').collect();
+            if p.len() != 6 {
+                return None;
+            }
+            let thresholds: Vec<u8> = if p[3] == "~" {
+                vec![]
+            } else {
+                p[3].chars().map(|c| c.to_digit(10).filter(|d| *d <= 5).map(|d| d as u8)).collect::<Option<Vec<u8>>>()?
+            };
+            paths.push(p[1].parse().ok()?);
+            apps.push(App {
+                name: dec_str(p[0])?,
+                append: match p[2] {
+                    "a" => true,
+                    "t" => false,
+                    _ => return None,
+                },
+                pre: None,
+                thresholds,
+                pattern: if p[4] == "@json" { String::new() } else { dec_str(p[4])? },
+                ast: p[5].to_owned(),
+                json: p[4] == "@json",
+            });
+        }
+        let names: Vec<String> = apps.iter().map(|a| enc_str(&a.name)).collect();
+        let names = enc_list(",", &names);
+        let routing = Cfg::decode(&[names.as_str(), f[1], f[2], f[3]])?;
+        Some(Cfg2 { apps, paths, root_level: routing.root_level, root_refs: routing.root_refs, loggers: routing.loggers })
+    }
+}
+
+impl Sys2Case {
+    pub fn line(&self) -> String {
+        let fs0: Vec<String> = self.fs0.iter().map(|f| enc_opt(f.as_ref(), |b| enc_bytes(b))).collect();
+        let cfgs: Vec<String> = self.cfgs.iter().map(|c| c.fields()).collect();
+        let ops: Vec<String> = self
+            .ops
+            .iter()
+            .map(|o| match o {
+                Op2::Rec(r) => format!("r{}", rec_line(r)),
+                Op2::Cfg(k) => format!("c{}", k),
+            })
+            .collect();
+        format!(
+            "sys2\t{}\t{}\t{}\t{}\t{}\t{}\t{}",
+            self.npaths,
+            fs0.join(","),
+            enc_opt(self.thread.as_ref(), |s| enc_str(s)),
+            enc_bool(self.snap),
+            self.cfgs.len(),
+            cfgs.join("\t"),
+            ops.join("|")
+        )
+    }
+
+    pub fn parse(f: &[&str]) -> Option<Sys2Case> {
+        if f.len() < 7 || f[0] != "sys2" {
+            return None;
+        }
+        let npaths: usize = f[1].parse().ok()?;
+        let fs0: Vec<Option<Vec<u8>>> =
+            f[2].split(',').map(|x| if x == "-" { Some(None) } else { dec_bytes(x).map(Some) }).collect::<Option<Vec<_>>>()?;
+        if fs0.len() != npaths {
+            return None;
+        }
+        let thread = if f[3] == "-" { None } else { Some(dec_str(f[3])?) };
+        let snap = match f[4] {
+            "1" => true,
+            "0" => false,
+            _ => return None,
+        };
+        let k: usize = f[5].parse().ok()?;
+        if k == 0 || f.len() != 6 + 4 * k + 1 {
+            return None;
+        }
+        let mut cfgs = vec![];
+        for i in 0..k {
+            let c = Cfg2::parse(&f[6 + 4 * i..10 + 4 * i])?;
+            if c.paths.iter().any(|p| *p >= npaths) {
+                return None;
+            }
+            cfgs.push(c);
+        }
+        let mut ops = vec![];
+        for o in f[6 + 4 * k].split('|') {
+            if let Some(r) = o.strip_prefix('r') {
+                ops.push(Op2::Rec(rec_parse(r)?));
+            } else if let Some(c) = o.strip_prefix('c') {
+                let i: usize = c.parse().ok()?;
+                if i >= k {
+                    return None;
+                }
+                ops.push(Op2::Cfg(i));
+            } else {
+                return None;
+            }
+        }
+        Some(Sys2Case { npaths, fs0, thread, snap, cfgs, ops })
+    }
+}
+
+fn read_paths(paths: &[std::path::PathBuf], mask: &[bool]) -> String {
+    let v: Vec<String> = paths
+        .iter()
+        .zip(mask.iter())
+        .map(|(p, m)| match std::fs::read(p) {
+            Ok(b) => enc_bytes(&mask_times(&b, *m)),
+            Err(_) => "-".to_owned(),
+        })
+        .collect();
+    v.join(",")
+}
+
+/// builds the appenders of configuration `c` NOW (files are opened / truncated here), then the Config
+fn build_config2(c: &Cfg2, files: &[std::path::PathBuf]) -> Option<Config> {
+    let mut b = Config::builder();
+    for (a, p) in c.apps.iter().zip(c.paths.iter()) {
+        let fa = FileAppender::builder().append(a.append).encoder(encoder_of(a)).build(&files[*p]).unwrap();
+        let mut ab = Appender::builder();
+        for t in &a.thresholds {
+            ab = ab.filter(Box::new(ThresholdFilter::new(level_filter(*t))));
+        }
+        b = b.appender(ab.build(a.name.clone(), Box::new(fa)));
+    }
+    for l in &c.loggers {
+        b = b.logger(
+            Logger::builder().appenders(l.refs.iter().cloned()).additive(l.additive).build(l.name.clone(), level_filter(l.level)),
+        );
+    }
+    b.build(Root::builder().appenders(c.root_refs.iter().cloned()).build(level_filter(c.root_level))).ok()
+}
+
+fn run2_in_thread(c: &Sys2Case) -> String {
+    let facts = format!("{} {} {}", enc_bool(cfg!(debug_assertions)), std::process::id(), thread_id::get());
+    let scratch = Scratch::new("sys2");
+    let files: Vec<std::path::PathBuf> = (0..c.npaths).map(|i| scratch.path().join(format!("p{}.log", i))).collect();
+    let has_json = c.cfgs.iter().any(|k| k.apps.iter().any(|a| a.json));
+    // a path is masked when some configuration of the case puts a JSON appender on it
+    let json_paths: Vec<bool> = (0..c.npaths)
+        .map(|p| c.cfgs.iter().any(|k| k.apps.iter().zip(k.paths.iter()).any(|(a, q)| a.json && *q == p)))
+        .collect();
+    let orders = std::cell::RefCell::new(Vec::<String>::new());
+    let result = guarded(AssertUnwindSafe(|| -> String {
+        for (f, content) in files.iter().zip(c.fs0.iter()) {
+            match content {
+                Some(bytes) => std::fs::write(f, bytes).unwrap(),
+                None => {
+                    let _ = std::fs::remove_file(f);
+                }
+            }
+        }
+        let config = match build_config2(&c.cfgs[0], &files) {
+            Some(cfg) => cfg,
+            None => return "INVALID".to_owned(),
+        };
+        let logger = log4rs::Logger::new(config);
+        let handle = logger.verif_handle();
+        let mut snaps: Vec<String> = vec![];
+        for op in &c.ops {
+            match op {
+                Op2::Rec(r) => {
+                    log_mdc::clear();
+                    for (k, v) in &r.mdc {
+                        log_mdc::insert(k.clone(), v.clone());
+                    }
+                    orders.borrow_mut().push(mdc_order());
+                    logger.log(
+                        &log::Record::builder()
+                            .level(level_of(r.level))
+                            .target(&r.target)
+                            .module_path(r.module.as_deref())
+                            .file(r.file.as_deref())
+                            .line(r.line)
+                            .args(format_args!("{}", r.message))
+                            .build(),
+                    );
+                }
+                Op2::Cfg(k) => {
+                    // the new appenders are built (files opened / truncated) while the old ones are
+                    // alive; then the swap; then the old snapshot is dropped
+                    let config = match build_config2(&c.cfgs[*k], &files) {
+                        Some(cfg) => cfg,
+                        None => return "INVALID".to_owned(),
+                    };
+                    handle.set_config(config);
+                }
+            }
+            if c.snap {
+                snaps.push(read_paths(&files, &json_paths));
+            }
+        }
+        log_mdc::clear();
+        if !c.snap {
+            snaps.push(read_paths(&files, &json_paths));
+        }
+        drop(handle);
+        drop(logger);
+        snaps.join("/")
+    }));
+    log_mdc::clear();
+    let tail = if has_json { format!(" {}", enc_list(";", &orders.borrow())) } else { String::new() };
+    match result {
+        Ok(s) => format!("{} {}{}", facts, s, tail),
+        Err(_) => format!("{} PANIC{}", facts, tail),
+    }
+}
+
+pub fn exec2(fields: &[&str]) -> String {
+    c11::process_init();
+    let c = match Sys2Case::parse(fields) {
+        Some(c) => c,
+        None => return "bad-case".to_owned(),
+    };
+    if c.ops.is_empty() {
+        return "bad-case".to_owned();
+    }
+    let b = std::thread::Builder::new();
+    let b = match &c.thread {
+        Some(n) => b.name(n.clone()),
+        None => b,
+    };
+    match b.spawn(move || run2_in_thread(&c)) {
+        Ok(h) => h.join().unwrap_or_else(|_| "PANIC:harness".to_owned()),
+        Err(_) => "bad-case".to_owned(),
+    }
+}
+
+fn gen_cfg2(rng: &mut Rng, npaths: usize, thorough: bool) -> Cfg2 {
+    let napps = rng.range(1, npaths.min(4) as u64) as usize;
+    // appender names are drawn from the common pool in a random order, so that a later configuration
+    // often has the same path under another name and the same name on another path
+    let mut names: Vec<&str> = APP_NAMES.to_vec();
+    rng.shuffle(&mut names);
+    let mut paths: Vec<usize> = (0..npaths).collect();
+    rng.shuffle(&mut paths);
+    paths.truncate(napps);
+    let apps: Vec<App> = names[..napps].iter().map(|n| gen_app(rng, n, thorough)).collect();
+    let (root_level, root_refs, loggers) = gen_routing(rng, &apps, thorough);
+    Cfg2 { apps, paths, root_level, root_refs, loggers }
+}
+
+pub fn gen_case2(rng: &mut Rng, thorough: bool) -> Sys2Case {
+    let npaths = rng.range(1, 5) as usize;
+    let k = rng.range(2, 4) as usize;
+    let cfgs: Vec<Cfg2> = (0..k).map(|_| gen_cfg2(rng, npaths, thorough)).collect();
+    let fs0: Vec<Option<Vec<u8>>> = (0..npaths)
+        .map(|_| match rng.below(4) {
+            0 => None,
+            1 => Some(vec![]),
+            2 => Some(b"before\n".to_vec()),
+            _ => Some(vec![0xff, b'x', b'\n']),
+        })
+        .collect();
+    let nseg = rng.range(2, 5) as usize;
+    let mut ops: Vec<Op2> = vec![];
+    let mut cur = 0usize;
+    for seg in 0..nseg {
+        if seg > 0 {
+            // mostly another configuration, sometimes the same one again (new appender objects all the same)
+            cur = if rng.chance(1, 5) { cur } else { rng.below(k as u64) as usize };
+            ops.push(Op2::Cfg(cur));
+        }
+        let n = rng.range(0, if thorough { 8 } else { 5 }) as usize;
+        // targets mostly from the configuration in force, sometimes from another one
+        let src = if rng.chance(3, 4) { cur } else { rng.below(k as u64) as usize };
+        for r in gen_records(rng, &cfgs[src].routing(), n) {
+            ops.push(Op2::Rec(r));
+        }
+    }
+    if ops.is_empty() {
+        ops.push(Op2::Cfg(0));
+    }
+    let snap = ops.len() <= 12 && rng.chance(1, 2);
+    Sys2Case {
+        npaths,
+        fs0,
+        thread: if rng.chance(1, 2) { None } else { Some((*rng.pick(&["main", "w\u{f6}rker", "t-1"])).to_owned()) },
+        snap,
+        cfgs,
+        ops,
+    }
+}
+
+pub fn gen2(rng: &mut Rng, n: usize, thorough: bool, emit: &mut dyn FnMut(String)) {
+    for _ in 0..n {
+        emit(gen_case2(rng, thorough).line());
     }
 }
